@@ -76,6 +76,75 @@ class WithInit(AutoSerialize):
         self.made_by_init = True
 
 
+# ---- sibling ways of declaring the attributes of an AutoSerialize class (the serializer reads attrs fields explicitly) ----
+try:
+    import attrs as _attrs
+except Exception:  # pragma: no cover
+    _attrs = None
+
+if _attrs is not None:
+
+    @_attrs.define
+    class AttrsInner(AutoSerialize):
+        n: int = 1
+        arr: object = None
+        tag: str = "inner"
+
+    @_attrs.define
+    class PlainAttrs:
+        """attrs-defined but *not* AutoSerialize: travels through the dill fallback as one value."""
+
+        x: int = 3
+        y: str = "plain"
+
+    @_attrs.define
+    class AttrsOuter(AutoSerialize):
+        k: int = 5
+        inner: object = None
+        items: list = _attrs.field(factory=list)
+        table: dict = _attrs.field(factory=dict)
+        pair: tuple = ()
+        plain: object = None
+        when: object = None
+
+    @_attrs.define(slots=False)
+    class AttrsPostInit(AutoSerialize):
+        a: int = 1
+        child: object = None
+
+        def __attrs_post_init__(self):
+            self.derived = self.a * 2
+
+
+import dataclasses as _dc
+
+
+@_dc.dataclass
+class DataNode(AutoSerialize):
+    a: int = 1
+    arr: object = None
+    child: object = None
+    items: list = _dc.field(default_factory=list)
+
+
+def make_attrs_object(rng, which):
+    if which == "dataclass":
+        return DataNode(a=int(rng.integers(99)), arr=make_array_shape(rng, "int16", (3,)), child=DataNode(a=2, child=make_leaf(rng)), items=[DataNode(a=3), "s", (1, 2)])
+    if _attrs is None:
+        return make_leaf(rng)
+    inner = AttrsInner(n=int(rng.integers(99)), arr=make_array_shape(rng, "float32", (3,)), tag="t")
+    if which == "inner":
+        return inner
+    if which == "postinit":
+        return AttrsPostInit(a=int(rng.integers(1, 9)), child=AttrsInner(n=9))
+    return AttrsOuter(
+        k=int(rng.integers(99)), inner=inner,
+        items=[AttrsInner(n=3, arr=make_array_shape(rng, "int8", (2,))), "s", 1, [AttrsInner(n=31)]],
+        table={"a": AttrsInner(n=4), "b": [1, 2], "deep": {"x": (AttrsInner(n=41), "y")}},
+        pair=(AttrsInner(n=5), 2), plain=PlainAttrs(int(rng.integers(99)), "q"), when=np.datetime64("2022-02-02"),
+    )
+
+
 class Unpicklable:
     """not an AutoSerialize object and not picklable: the dill fallback of save() must fail on it."""
 
